@@ -22,6 +22,18 @@ Sections
 * E — the running system, for every reachable state: an order the engine opens for (exchange index,
   instrument index) moves the balance of that instrument's own asset index and is reported under its
   own instrument index; composition with the C08 ledger.
+* F — what the `spec` driver states since the oracle review (rejection reasons, initial snapshot,
+  live links).
+* G — COMPOSITION (theorem review A, C04M-1): in the built system the mock exchange task behind a
+  link IS the isolated `mockRun` of sections E / F on the requests routed to it; the composed
+  refinement the `spec` driver prints.
+* H — the manager's 1 s request timeout on mock links (theorem review A, C04M-2): below / at the
+  threshold, "ledger debited although the engine saw a timeout".
+
+Hypotheses (theorem review A, C04M-3): C11's `WFAssets` is needed ONLY where table entries are compared
+with DEFINITIONS (`round_trip`, `refines_definition_spec`); every index-level statement (C2, E2, E4 –
+E7, G, H) holds for builder output without it (`ViewHypW`, `refs_own_exchange_w`: an asset index of a
+builder-made instrument always points at an asset entry of the instrument's own exchange).
 -/
 namespace BarterModel.Props.C04M
 open BarterModel.Index BarterModel.MockInstruments
@@ -267,14 +279,15 @@ theorem manager_names_known {ii : Indexed} {ex : Nat} {m : ExecMap.EMap} {t : Ta
     ∃ e, findInstrumentData t n = some e :=
   manager_name_known hI hm ht h
 
-/-- (C2) `same_instrument_same_assets`: builder output, `WFAssets`, unambiguous names on `ex`. For
+/-- (C2) `same_instrument_same_assets`: builder output, unambiguous names on `ex` (no `WFAssets`
+since theorem review A). For
 instrument index `i` of `ex`: the manager addresses it by its exchange name and that name indexes
 back to `i`; under that name the mock table holds the native form of exactly this instrument; and
 the base / quote NAMES of that entry translate back, on the same link, to the instrument's own base
 / quote asset INDICES. The engine's view (positions on instrument `i`, balances on asset indices)
 and the mock exchange's view (ledger on asset names) talk about the same instrument and assets. -/
 theorem same_instrument_same_assets {defs : List Def} {ii : Indexed} (h : build defs = some ii)
-    (hwf : WFAssets defs) {ex : Nat} (hu : UniqueNames defs ex) (ha : UniqueAssetNames defs ex)
+    {ex : Nat} (hu : UniqueNames defs ex) (ha : UniqueAssetNames defs ex)
     {m : ExecMap.EMap} {t : Table} (hm : ExecMap.genMap (toColl ii) ex = .ok m)
     (ht : genMockInstruments ii ex = .ok t) {i : Nat} {x : Keyed Nat IInstrument}
     (hx : ii.instruments[i]? = some x) (hex : x.value.exchange.value = ex) :
@@ -282,7 +295,7 @@ theorem same_instrument_same_assets {defs : List Def} {ii : Indexed} (h : build 
     m.findInstrumentIndex x.value.nameExchange = .ok i ∧
     ∃ e, findInstrumentData t x.value.nameExchange = some e ∧ nativeI ii x.value = some e ∧
       m.findAssetIndex e.base = .ok x.value.base ∧ m.findAssetIndex e.quote = .ok x.value.quote :=
-  own_view h ex hwf hu ha hm ht hx hex
+  own_view_w h ex hu ha hm ht hx hex
 
 /-! ## D. The builder -/
 
@@ -298,8 +311,8 @@ theorem add_mock_panics_first (ii : Indexed) (b : MockInstruments.Builder) (c : 
   simp [addMock, ht, pushMock]
 
 /-- (D2) `unknown_exchange_is_err_not_panic`: for builder output, `add_mock` for an exchange that
-is not indexed generates the empty table and then returns `Err` (index) — no panic; an exchange
-added twice returns `Err` (duplicate) provided its table can be generated. -/
+is not indexed generates the empty table and then returns `Err` (index) — no panic. (The duplicate
+case is `duplicate_exchange_is_err` below.) -/
 theorem unknown_exchange_is_err_not_panic {defs : List Def} {ii : Indexed} (h : build defs = some ii)
     (b : MockInstruments.Builder) (c : MockConfig) (hno : ∀ d ∈ defs, d.exchange ≠ c.exchange) :
     addMock ii b c = .error (.build .index) := by
@@ -320,6 +333,20 @@ theorem unknown_exchange_is_err_not_panic {defs : List Def} {ii : Indexed} (h : 
     obtain ⟨d, hd, hde⟩ := this
     exact hno d hd (by rw [hde]; exact hid)
 
+/-- (D2') `duplicate_exchange_is_err`: an exchange that already has an execution (mock or live) —
+`add_mock`, provided its table can be generated (the panic comes first, D1), and `add_live` return
+`Err` (duplicate): nothing is spawned, the builder is consumed. -/
+theorem duplicate_exchange_is_err (ii : Indexed) (b : MockInstruments.Builder) {ex : Nat}
+    {m : ExecMap.EMap} {l : ExecMap.Link} (hm : ExecMap.genMap (toColl ii) ex = .ok m)
+    (hl : b.added.lookup ex = some l) :
+    (∀ c : MockConfig, c.exchange = ex → ∀ t, genMockInstruments ii ex = .ok t →
+      addMock ii b c = .error (.build .duplicate)) ∧
+    addLive ii b ex = .error (.build .duplicate) := by
+  refine ⟨?_, addLive_duplicate ii b ex hm hl⟩
+  intro c hc t ht
+  subst hc
+  exact addMock_duplicate ii b c ht hm hl
+
 /-- (D3) `transmitter_table_is_C04`: mock or live makes no difference to the transmitter table: after
 any successful sequence of `add_mock` / `add_live` calls the builder's `execution_txs` is what C04's
 `addExecutions` produces for the same exchange ids, and the table of the initialised system is
@@ -339,7 +366,8 @@ theorem transmitter_table_is_C04 {ii : Indexed} {adds : List Add} {b : MockInstr
 
 /-- (D4) `spawned_per_exchange`: what `init` spawns: one `MockExchange::run` task per `add_mock`, one
 manager task and one account-stream forwarder per `add_*` — `ExecutionHandles` has lengths
-(#mock, #adds, #adds). -/
+(#mock, #adds, #adds). (The third component equals the second by the definition of `Exec.handles`:
+the model keeps one list for managers and forwarders.) -/
 theorem spawned_per_exchange {ii : Indexed} {adds : List Add} {b : MockInstruments.Builder}
     (hadd : addAll ii {} adds 0 = .ok b) {e : Exec} {snaps : List (Nat × List (Nat × Rat))}
     (hinit : buildInit ii b = .ok e snaps) :
@@ -378,6 +406,12 @@ theorem mock_client_shares_channels_with_own_exchange {ii : Indexed} {adds : Lis
 /-- The system after any history of open requests. -/
 def runOrders (e : Exec) (os : List Open) : Exec := os.foldl (fun e o => (sendOpen e o).1) e
 
+/-- (bookkeeping) `runOrders` is `MockInstruments.runAll`, and the engine-side run `runAllSeen` (with
+the manager's timeout) passes through the same states. -/
+theorem runOrders_eq_runAll (e : Exec) (os : List Open) :
+    runOrders e os = runAll e os ∧ runAllSeen e os = runAll e os :=
+  ⟨rfl, runAllSeen_eq e os⟩
+
 /-- (E1) `invariant_of_every_reachable_state`: in every state reachable from `build()` + `init()` of
 builder output by any history of open requests (including ones that kill a manager or a mock
 exchange): every transmitter leads to the manager of its own exchange with that exchange's map,
@@ -396,8 +430,8 @@ theorem invariant_of_every_reachable_state {defs : List Def} {ii : Indexed} (h :
   | cons o rest ih => exact ih _ (execInv_sendOpen h0 o)
 
 /-- (E2) `same_assets_for_every_order` — **the engine's view and the mock exchange's view talk about
-the same instrument and the same assets**, for every reachable state: builder output with `WFAssets`,
-any adds, any order history `os`; the next open request for (exchange index `o.exchange`, instrument
+the same instrument and the same assets**, for every reachable state: builder output (no `WFAssets`
+since theorem review A), any adds, any order history `os`; the next open request for (exchange index `o.exchange`, instrument
 index `o.instrument`) that reaches a mock exchange (of exchange id `client`, names unambiguous there):
 instrument `o.instrument` belongs to `client` and was addressed by its own exchange name; the order
 snapshot that comes back carries exactly (`o.exchange`, `o.instrument`); the balance snapshot — or
@@ -406,7 +440,7 @@ its own BASE asset index on a sell (the indices C09 keeps balances under); the t
 instrument index `o.instrument` (the index C02 keeps the position under) with the requested side,
 price and quantity. -/
 theorem same_assets_for_every_order {defs : List Def} {ii : Indexed} (h : build defs = some ii)
-    (hwf : WFAssets defs) {adds : List Add} {b : MockInstruments.Builder}
+    {adds : List Add} {b : MockInstruments.Builder}
     (hadd : addAll ii {} adds 0 = .ok b) {e : Exec} {snaps : List (Nat × List (Nat × Rat))}
     (hinit : buildInit ii b = .ok e snaps) (os : List Open) (o : Open)
     {e' : Exec} {client name : Nat} {ev : Events}
@@ -421,9 +455,11 @@ theorem same_assets_for_every_order {defs : List Def} {ii : Indexed} (h : build 
           a = (match o.side with | .buy => x.value.quote | .sell => x.value.base)) ∧
       (∀ j sd p q f, ev.trade = some (j, sd, p, q, f) →
           j = o.instrument ∧ sd = o.side ∧ p = o.price ∧ q = o.qty) :=
-  sendOpen_view h hwf (invariant_of_every_reachable_state h hadd hinit os) hs hu ha
+  sendOpen_view_w h (invariant_of_every_reachable_state h hadd hinit os) hs hu ha
 
-/-- (E3) `ledger_is_C08`: a spawned mock exchange task IS the C08 exchange: its ledger state after
+/-- (E3) `ledger_is_C08` (one step, by construction of `mockOpen`, which calls `MockExchange.step`;
+the whole-history and built-system form is `built_system_ledger_is_C08`): a spawned mock exchange task
+IS the C08 exchange: its ledger state after
 any sequence of requests is `MockExchange.run` from the configuration `toCfg` (balances by position
 in the configured list, instruments by table position, asset names resolved to balance positions) on
 the requests it has seen — so every theorem of `Props/C08` (exact debit, others untouched, no fill
@@ -439,18 +475,18 @@ theorem ledger_is_C08 {mt : MockTask} {c : MockConfig} {ops : List (Int × MockE
 
 /-- (E4) `configured_balances_keep_it_alive`: the C08 configuration of a mock exchange is well
 formed exactly when every base / quote name of its table has a configured balance; for builder
-output with `WFAssets` it suffices to configure a balance for every asset of the exchange; and then
+output (no `WFAssets` since theorem review A) it suffices to configure a balance for every asset of the exchange; and then
 (C08 `never_panics`) no request ever kills the task — `expect("MockExchange has Balance for all
 configured Instrument assets")` cannot fire. -/
 theorem configured_balances_keep_it_alive {defs : List Def} {ii : Indexed} (h : build defs = some ii)
-    (hwf : WFAssets defs) (c : MockConfig) {t : Table} (ht : genMockInstruments ii c.exchange = .ok t) :
+    (c : MockConfig) {t : Table} (ht : genMockInstruments ii c.exchange = .ok t) :
     ((toCfg c t).wf = true ↔
       ∀ p ∈ t, p.2.base ∈ c.balances.map (·.1) ∧ p.2.quote ∈ c.balances.map (·.1)) ∧
     ((∀ a ∈ ii.assets, a.value.exchange = c.exchange →
         a.value.asset.nameExchange ∈ c.balances.map (·.1)) → (toCfg c t).wf = true) ∧
     (∀ (mt : MockTask) ops, mt.table = t → MockHist mt c ops → (toCfg c t).wf = true →
       mt.dead = false → ∀ map name o, (mockOpen map mt name o).1.dead = false) := by
-  refine ⟨toCfg_wf_iff c t, covers_wf h hwf c ht, ?_⟩
+  refine ⟨toCfg_wf_iff c t, covers_wf_w h c ht, ?_⟩
   intro mt ops hte hh hw hd map name o
   obtain ⟨_, _, _, h4⟩ := mockOpen_alive map mt name o hd
   cases hdd : (mockOpen map mt name o).1.dead with
@@ -461,7 +497,8 @@ theorem configured_balances_keep_it_alive {defs : List Def} {ii : Indexed} (h : 
     exact absurd this (C08.never_panics hw ops 0 _).2
 
 /-- (E5) `engine_view_refinement` — **refinement of the mock exchange to the index-level
-specification, for whole histories.** Under `ViewHyp` (builder output with `WFAssets`, unambiguous
+specification, for whole histories** (isolated task; in the built system: `built_system_refines_view`).
+Under `ViewHypW` (builder output — without `WFAssets` since theorem review A —, unambiguous
 instrument and asset names on the mocked exchange, its manager's map and its table, pairwise distinct
 configured balance names, a balance for exactly the assets of the exchange): start the mock exchange
 task the builder spawns, send it ANY list `os` of open requests for instruments of that exchange
@@ -474,7 +511,7 @@ index with that price / quantity / fees, the order snapshot under (exchange inde
 index); nothing when it prescribes nothing. Names, table positions and balance positions have
 disappeared from the statement; the task never dies. -/
 theorem engine_view_refinement {defs : List Def} {ii : Indexed} {c : MockConfig} {m : ExecMap.EMap}
-    {t : Table} (H : ViewHyp defs ii c m t) (chan : Nat) (os : List Open)
+    {t : Table} (H : ViewHypW defs ii c m t) (chan : Nat) (os : List Open)
     (hos : ∀ o ∈ os, Own ii c o) (o : Open) (ho : Own ii c o) :
     let mt := mockRun ii m (spawnMock ⟨chan, c, t⟩) os
     mt.dead = false ∧
@@ -488,9 +525,9 @@ theorem engine_view_refinement {defs : List Def} {ii : Indexed} {c : MockConfig}
       | none => (mockOpen m mt (nameOf ii o) o).2.balance = none ∧
           (mockOpen m mt (nameOf ii o) o).2.trade = none) := by
   intro mt
-  have hv := viewInv_run H os hos (viewInv_spawn c m t chan)
+  have hv := viewInv_run_w H os hos (viewInv_spawn c m t chan)
   have hd : mt.dead = false := by obtain ⟨_, _, _, hd, _⟩ := hv; exact hd
-  exact ⟨hd, (viewInv_step H hv o ho).2⟩
+  exact ⟨hd, (viewInv_step_w H hv o ho).2⟩
 
 /-! ## F. What the `spec` driver states since the oracle review (C04-M2)
 
@@ -504,36 +541,37 @@ index) and the reason `specOutcome` names: `rejected` for a non-market order, ot
 `insufficient a` where `a` is the asset INDEX the order would have spent (the instrument's own quote
 index for a buy, base index for a sell) — never another link's or another instrument's asset. -/
 theorem reject_outcome_refines_view {defs : List Def} {ii : Indexed} {c : MockConfig} {m : ExecMap.EMap}
-    {t : Table} (H : ViewHyp defs ii c m t) (chan : Nat) (os : List Open)
+    {t : Table} (H : ViewHypW defs ii c m t) (chan : Nat) (os : List Open)
     (hos : ∀ o ∈ os, Own ii c o) (o : Open) (ho : Own ii c o) :
     let mt := mockRun ii m (spawnMock ⟨chan, c, t⟩) os
     specObserve ii c (specHistory ii c os) o = none →
       (mockOpen m mt (nameOf ii o) o).2.order =
         some (m.exchange.key, o.instrument, specOutcome ii c (specHistory ii c os) o) := by
   intro mt hnone
-  obtain ⟨ops, hh, htab, hd, hacc⟩ := viewInv_run H os hos (viewInv_spawn c m t chan)
+  obtain ⟨ops, hh, htab, hd, hacc⟩ := viewInv_run_w H os hos (viewInv_spawn c m t chan)
   obtain ⟨x, hx, hex⟩ := ho
   have hname : nameOf ii o = x.value.nameExchange := by simp [nameOf, hx]
   have hacc' : (MockExchange.Spec.accepted (toCfg c t) (MockExchange.opens (toCfg c t) ops)).map
       (renEv (tauOf m t)) = specHistory ii c os := hacc
-  have := mockOpen_reject_outcome H hh htab hd hx hex o rfl
+  have := mockOpen_reject_outcome_w H hh htab hd hx hex o rfl
   simp only [hacc'] at this
   rw [hname]
   exact this hnone
 
 
 /-- (E7) `init_snapshot_refines_view` — the indexed initial account snapshot (spec key `snap<x>`,
-oracle review C04-M2 / T1). Under `ViewHyp`: the first account event of the mocked exchange's manager
+oracle review C04-M2 / T1; for the snapshot list of `buildInit` itself: `built_system_init_snapshot`).
+Under `ViewHypW`: the first account event of the mocked exchange's manager
 (`initSnapshot`: the configured balances, each exchange NAME translated to an asset index through the
 manager's map; `none` would be an `init` error) exists and is, up to order, `specSnapshot`: for every
 asset INDEX of that exchange the amount configured for it — none missing, none of another exchange,
 none twice. -/
 theorem init_snapshot_refines_view {defs : List Def} {ii : Indexed} {c : MockConfig} {m : ExecMap.EMap}
-    {t : Table} (H : ViewHyp defs ii c m t) (mocks : List MockFuture) (f : InitFuture) (chan : Nat)
+    {t : Table} (H : ViewHypW defs ii c m t) (mocks : List MockFuture) (f : InitFuture) (chan : Nat)
     (hf : f.client = .mock chan) (hm : f.map = m)
     (hfind : mocks.find? (fun mf => mf.chan == chan) = some ⟨chan, c, t⟩) :
     ∃ l, initSnapshot mocks f = some l ∧ l.Perm (specSnapshot ii c) :=
-  initSnapshot_refines_view H mocks f chan hf hm hfind
+  initSnapshot_refines_view_w H mocks f chan hf hm hfind
 
 /-- (spec key `r live`, oracle review C04-M2 / T4) The request a manager of a builder-made system
 hands its client — a live client as well as the mock client — for the engine key (exchange index
@@ -579,6 +617,197 @@ theorem manager_request_addressed {defs : List Def} {ii : Indexed} (h : build de
           exact hne x hx hke
     simp only [ExecMap.specOrderRequest, hid, hn]
 
+
+/-! ## G. Composition: the built system runs its mock exchanges in isolation (theorem review A, C04M-1)
+
+`engine_view_refinement`, `reject_outcome_refines_view`, `ledger_is_C08` and part 3 of
+`configured_balances_keep_it_alive` speak about an ISOLATED mock exchange task
+(`mockRun ii m (spawnMock ..) os`). This section ties them to `runOrders` / `sendOpen` of the system
+`build()` + `init()` produce: for every mock exchange of the builder, after ANY history of open
+requests sent through the engine's transmitter table, the task behind that link is the isolated run
+on exactly the requests routed to it. -/
+
+/-- (G0) every mock exchange of a built system has its place: an exchange index `xi`, the map `m` of
+its manager, and the table generated for its exchange id. -/
+theorem mock_exchange_has_its_link {ii : Indexed} {adds : List Add} {b : MockInstruments.Builder}
+    (hadd : addAll ii {} adds 0 = .ok b) {mf : MockFuture} (hmf : mf ∈ b.mockFutures) :
+    ∃ (m : ExecMap.EMap) (xi : Nat) (kx : Keyed Nat Nat),
+      ExecMap.genMap (toColl ii) mf.config.exchange = .ok m ∧ ii.exchanges[xi]? = some kx ∧
+      kx.value = mf.config.exchange ∧ genMockInstruments ii mf.config.exchange = .ok mf.table :=
+  mock_link_exists hadd hmf
+
+/-- (G1) `built_system_runs_isolated_mocks` — **the run of the built system on exchange index `xi` IS
+the isolated run of that exchange's mock on the requests routed to it.** Builder output, any
+successful adds, `build()` + `init()`; `mf` any mock exchange of the builder (exchange id
+`mf.config.exchange` at exchange index `xi`, manager's map `m`). After ANY history `os` of open
+requests — for any exchange index, any instrument index, including requests that kill managers or
+mock exchanges, on this link or another: the mock exchange task on `mf`'s channel pair is
+`mockRun ii m (spawnMock mf) (routedTo ii ex xi os)` where `routedTo` keeps the requests addressed to
+`xi` up to the first one naming an instrument that is not an instrument of `ex`; the manager of `ex`
+still runs iff there was no such request (`managerAlive`). -/
+theorem built_system_runs_isolated_mocks {defs : List Def} {ii : Indexed} (h : build defs = some ii)
+    {adds : List Add} {b : MockInstruments.Builder} (hadd : addAll ii {} adds 0 = .ok b)
+    {e : Exec} {snaps : List (Nat × List (Nat × Rat))} (hinit : buildInit ii b = .ok e snaps)
+    {mf : MockFuture} (hmf : mf ∈ b.mockFutures)
+    {m : ExecMap.EMap} (hm : ExecMap.genMap (toColl ii) mf.config.exchange = .ok m)
+    {xi : Nat} {kx : Keyed Nat Nat} (hxi : ii.exchanges[xi]? = some kx) (hkx : kx.value = mf.config.exchange)
+    (os : List Open) :
+    mockOf (runOrders e os) mf.chan =
+      some (mockRun ii m (spawnMock mf) (routedTo ii mf.config.exchange xi os)) ∧
+    mgrAlive (runOrders e os) mf.config.exchange = managerAlive ii mf.config.exchange xi os ∧
+    linkMock (runOrders e os) xi = mockOf (runOrders e os) mf.chan := by
+  obtain ⟨hl, hal, hmt⟩ := built_mock_is_isolated_run h hadd hinit hmf hm hxi hkx os
+  exact ⟨hmt, hal, linkMock_eq hl⟩
+
+/-- (G2) `built_system_order_is_isolated_step` — the next request of the built system, addressed to
+exchange index `xi`: `closed` when the manager is gone; the manager dies (`managerPanic`) when the
+request names a foreign instrument; otherwise the mock exchange is asked under the instrument's
+exchange NAME and the events are `mockOpen` of the ISOLATED run — the object sections E / F speak
+about — indexed with `m`, whose exchange key is `xi`. -/
+theorem built_system_order_is_isolated_step {defs : List Def} {ii : Indexed} (h : build defs = some ii)
+    {adds : List Add} {b : MockInstruments.Builder} (hadd : addAll ii {} adds 0 = .ok b)
+    {e : Exec} {snaps : List (Nat × List (Nat × Rat))} (hinit : buildInit ii b = .ok e snaps)
+    {mf : MockFuture} (hmf : mf ∈ b.mockFutures)
+    {m : ExecMap.EMap} (hm : ExecMap.genMap (toColl ii) mf.config.exchange = .ok m)
+    {xi : Nat} {kx : Keyed Nat Nat} (hxi : ii.exchanges[xi]? = some kx) (hkx : kx.value = mf.config.exchange)
+    (os : List Open) (o : Open) (ho : o.exchange = xi) :
+    let mt := mockRun ii m (spawnMock mf) (routedTo ii mf.config.exchange xi os)
+    (managerAlive ii mf.config.exchange xi os = false →
+      sendOpen (runOrders e os) o = (runOrders e os, .closed)) ∧
+    (managerAlive ii mf.config.exchange xi os = true → ownB ii mf.config.exchange o = false →
+      (sendOpen (runOrders e os) o).2 = .managerPanic) ∧
+    (managerAlive ii mf.config.exchange xi os = true → ownB ii mf.config.exchange o = true →
+      (sendOpen (runOrders e os) o).2 =
+        .mock mf.config.exchange (nameOf ii o) (mockOpen m mt (nameOf ii o) o).2 ∧
+      mockOf (sendOpen (runOrders e os) o).1 mf.chan = some (mockOpen m mt (nameOf ii o) o).1 ∧
+      m.exchange.key = xi) :=
+  built_order_is_isolated_step h hadd hinit hmf hm hxi hkx os o ho
+
+/-- (G3) `built_system_refines_view` — **the composed refinement: what the `spec` driver prints for a
+request on a mock link it speaks about.** Builder output, any adds, `build()` + `init()`; `mf` a mock
+exchange satisfying `ViewHypW` (names unambiguous on it, balances configured for exactly its assets).
+After ANY history `os` sent through the built system in which no request addressed to `xi` named a
+foreign instrument (`managerAlive`), a request for an own instrument of `xi`: the mock exchange is
+asked under the instrument's exchange name, and the ENGINE is handed exactly what the index-level C08
+specification prescribes over the requests routed to this exchange (`specHistory` of `routedTo` — the
+per-exchange history of the driver): balance and fill when it prescribes a fill, nothing otherwise;
+the order snapshot under (`xi`, instrument index) with `specSeen` of the outcome — filled / active /
+the reason `specOutcome` names while the configured latency is below the manager's request timeout,
+`timeout` from there on (section H). Names, table positions, balance positions and the other links'
+traffic have disappeared from the statement. -/
+theorem built_system_refines_view {defs : List Def} {ii : Indexed} (h : build defs = some ii)
+    {adds : List Add} {b : MockInstruments.Builder} (hadd : addAll ii {} adds 0 = .ok b)
+    {e : Exec} {snaps : List (Nat × List (Nat × Rat))} (hinit : buildInit ii b = .ok e snaps)
+    {mf : MockFuture} (hmf : mf ∈ b.mockFutures) {m : ExecMap.EMap}
+    (H : ViewHypW defs ii mf.config m mf.table)
+    {xi : Nat} {kx : Keyed Nat Nat} (hxi : ii.exchanges[xi]? = some kx) (hkx : kx.value = mf.config.exchange)
+    (os : List Open) (o : Open) (ho : o.exchange = xi)
+    (ha : managerAlive ii mf.config.exchange xi os = true) (hb : ownB ii mf.config.exchange o = true) :
+    ∃ ev, (sendOpenSeen (runOrders e os) o).2 = .mock mf.config.exchange (nameOf ii o) ev ∧
+      (match specObserve ii mf.config (specHistory ii mf.config (routedTo ii mf.config.exchange xi os)) o with
+        | some (a, bal, tr) =>
+          ev.balance = some (a, bal, bal) ∧
+          ev.trade = some (tr.instr, tr.side, tr.price, tr.qty, tr.fees) ∧ tr.instr = o.instrument ∧
+          ev.order = some (xi, o.instrument,
+            specSeen mf.config (if o.qty - tr.qty = 0 then .filled else .active))
+        | none =>
+          ev.balance = none ∧ ev.trade = none ∧
+          ev.order = some (xi, o.instrument, specSeen mf.config
+            (specOutcome ii mf.config (specHistory ii mf.config (routedTo ii mf.config.exchange xi os)) o))) :=
+  built_refines_view h hadd hinit hmf H hxi hkx os o ho ha hb
+
+/-- (G4) `built_system_ledger_is_C08` — `ledger_is_C08` for whole histories of the BUILT system: the
+ledger of the mock exchange task behind `xi` after any history is `MockExchange.run` from `toCfg` on
+the requests it executed — while it lives, exactly the requests routed to it, each under the exchange
+name of its instrument index at the table position of that name: every theorem of `Props/C08`
+applies to the mock exchange INSIDE the built system. -/
+theorem built_system_ledger_is_C08 {defs : List Def} {ii : Indexed} (h : build defs = some ii)
+    {adds : List Add} {b : MockInstruments.Builder} (hadd : addAll ii {} adds 0 = .ok b)
+    {e : Exec} {snaps : List (Nat × List (Nat × Rat))} (hinit : buildInit ii b = .ok e snaps)
+    {mf : MockFuture} (hmf : mf ∈ b.mockFutures)
+    {m : ExecMap.EMap} (hm : ExecMap.genMap (toColl ii) mf.config.exchange = .ok m)
+    {xi : Nat} {kx : Keyed Nat Nat} (hxi : ii.exchanges[xi]? = some kx) (hkx : kx.value = mf.config.exchange)
+    (os : List Open) :
+    ∃ mt ops, mockOf (runOrders e os) mf.chan = some mt ∧ MockHist mt mf.config ops ∧
+      mt.table = mf.table ∧
+      (mt.dead = false → ops = (routedTo ii mf.config.exchange xi os).map fun o =>
+        (0, .openOrder (mockReq mf.table (nameOf ii o) o))) := by
+  obtain ⟨_, _, hmt⟩ := built_mock_is_isolated_run h hadd hinit hmf hm hxi hkx os
+  obtain ⟨ops, hh, htab, hops⟩ :=
+    mockRun_hist ii m (mockHist_spawn mf) (routedTo ii mf.config.exchange xi os)
+  exact ⟨_, ops, hmt, hh, htab, fun hd => by simpa [spawnMock] using hops hd⟩
+
+/-- (G5) `built_system_mock_never_dies` — part 3 of `configured_balances_keep_it_alive` for the BUILT
+system: when every base / quote name of the table has a configured balance (for builder output: a
+balance for every asset of the exchange suffices, E4), no history of requests — own, foreign,
+unfunded, for other links — kills the mock exchange task: `expect("MockExchange has Balance for all
+configured Instrument assets")` cannot fire. -/
+theorem built_system_mock_never_dies {defs : List Def} {ii : Indexed} (h : build defs = some ii)
+    {adds : List Add} {b : MockInstruments.Builder} (hadd : addAll ii {} adds 0 = .ok b)
+    {e : Exec} {snaps : List (Nat × List (Nat × Rat))} (hinit : buildInit ii b = .ok e snaps)
+    {mf : MockFuture} (hmf : mf ∈ b.mockFutures)
+    {m : ExecMap.EMap} (hm : ExecMap.genMap (toColl ii) mf.config.exchange = .ok m)
+    {xi : Nat} {kx : Keyed Nat Nat} (hxi : ii.exchanges[xi]? = some kx) (hkx : kx.value = mf.config.exchange)
+    (hw : (toCfg mf.config mf.table).wf = true) (os : List Open) :
+    ∃ mt, mockOf (runOrders e os) mf.chan = some mt ∧ mt.dead = false := by
+  obtain ⟨_, _, hmt⟩ := built_mock_is_isolated_run h hadd hinit hmf hm hxi hkx os
+  exact ⟨_, hmt, mockRun_alive_of_wf ii m (mockHist_spawn mf) rfl hw _⟩
+
+/-- (G6) `built_system_init_snapshot` — `init_snapshot_refines_view` for `buildInit` itself (spec key
+`snap<x>`): the snapshot list of the built system holds, under the exchange's own index, a snapshot
+that is `specSnapshot` up to order — for every asset INDEX of the exchange the configured amount. -/
+theorem built_system_init_snapshot {defs : List Def} {ii : Indexed}
+    {adds : List Add} {b : MockInstruments.Builder} (hadd : addAll ii {} adds 0 = .ok b)
+    {e : Exec} {snaps : List (Nat × List (Nat × Rat))} (hinit : buildInit ii b = .ok e snaps)
+    {mf : MockFuture} (hmf : mf ∈ b.mockFutures) {m : ExecMap.EMap}
+    (H : ViewHypW defs ii mf.config m mf.table) :
+    ∃ l, (m.exchange.key, l) ∈ snaps ∧ l.Perm (specSnapshot ii mf.config) :=
+  built_init_snapshot hadd hinit hmf H
+
+/-! ## H. The manager's request timeout on a mock link (theorem review A, C04M-2)
+
+`add_mock` gives the manager a request timeout of 1 s (`DUMMY_EXECUTION_REQUEST_TIMEOUT`,
+builder.rs:97); the mock exchange answers `latency_ms` after it has EXECUTED the request. -/
+
+/-- (H1) `timeout_leaves_system_state`: whatever the engine is told, the system is in the state
+`sendOpen` describes — the timeout undoes nothing at the exchange; histories pass through the same
+states with and without the timeout layer. -/
+theorem timeout_leaves_system_state (e : Exec) (o : Open) (os : List Open) :
+    (sendOpenSeen e o).1 = (sendOpen e o).1 ∧ runAllSeen e os = runOrders e os :=
+  ⟨sendOpenSeen_state e o, runAllSeen_eq e os⟩
+
+/-- (H2) `timeout_iff` — both sides of the threshold. For a request that reaches a mock exchange of
+the built system (setting of G2): the engine is handed the events of the isolated step; the order
+snapshot is replaced by the manager's own `timeout` — under the REQUEST's key (`xi`, instrument
+index) — exactly when the task is alive after the request AND the configured latency is at least
+`mockRequestTimeoutMs` = 1000; balance and trade notifications are never touched. In particular with
+a latency below 1000 ms the engine sees the client's response; a task that is dead, or dies on this
+request, answers `offline` at once whatever its latency. -/
+theorem timeout_iff {defs : List Def} {ii : Indexed} (h : build defs = some ii)
+    {adds : List Add} {b : MockInstruments.Builder} (hadd : addAll ii {} adds 0 = .ok b)
+    {e : Exec} {snaps : List (Nat × List (Nat × Rat))} (hinit : buildInit ii b = .ok e snaps)
+    {mf : MockFuture} (hmf : mf ∈ b.mockFutures)
+    {m : ExecMap.EMap} (hm : ExecMap.genMap (toColl ii) mf.config.exchange = .ok m)
+    {xi : Nat} {kx : Keyed Nat Nat} (hxi : ii.exchanges[xi]? = some kx) (hkx : kx.value = mf.config.exchange)
+    (os : List Open) (o : Open) (ho : o.exchange = xi)
+    (ha : managerAlive ii mf.config.exchange xi os = true) (hb : ownB ii mf.config.exchange o = true) :
+    let r := mockOpen m (mockRun ii m (spawnMock mf) (routedTo ii mf.config.exchange xi os)) (nameOf ii o) o
+    let late := !r.1.dead && decide (mockRequestTimeoutMs ≤ mf.config.latency)
+    (sendOpenSeen (runOrders e os) o).2 =
+      .mock mf.config.exchange (nameOf ii o)
+        (if late then r.2.timedOut xi o.instrument else r.2.seen) ∧
+    (r.2.timedOut xi o.instrument).order = some (xi, o.instrument, .timeout) ∧
+    (r.2.timedOut xi o.instrument).balance = r.2.balance ∧
+    (r.2.timedOut xi o.instrument).trade = r.2.trade ∧
+    (mf.config.latency < mockRequestTimeoutMs → late = false) := by
+  intro r late
+  have hs := built_order_seen h hadd hinit hmf hm hxi hkx os o ho ha hb
+  simp only at hs
+  rw [answersLate_isolated] at hs
+  refine ⟨hs, rfl, rfl, rfl, ?_⟩
+  intro hlt
+  have : ¬ mockRequestTimeoutMs ≤ mf.config.latency := Nat.not_le.mpr hlt
+  simp [late, this]
 
 /-! ## Non-vacuity
 
@@ -690,6 +919,104 @@ example : ∃ ii m t, ViewHyp exDefs ii ⟨0, 0, 1/100, [(2, 7), (1, 100), (0, 3
     decide
   · intro n hn
     have : ∃ v ∈ exDefs.flatMap defAssets, v.exchange = 0 ∧ v.asset.nameExchange = n := by
+      revert hn; revert n; decide
+    obtain ⟨v, hv, h1, h2⟩ := this
+    obtain ⟨a, ha, rfl⟩ := List.mem_map.mp ((hmem v).mpr hv)
+    exact ⟨a, ha, h1, h2⟩
+
+/-! ## Witnesses at the excluded points (theorem review A)
+
+Theorems, so that they are audited: the timeout threshold on a concrete built system, and the
+hypothesis set without `WFAssets`. -/
+
+/-- `exII` is what `IndexedInstruments::new` makes of `exDefs` without the perpetual: the pipeline
+examples above and the witnesses below run on builder output, not on a hand-made collection
+(evaluated by `simp`: `List.mergeSort` is defined by well-founded recursion and does not reduce in the
+kernel). -/
+theorem exII_is_builder_output :
+    build [ ⟨0, 1, 1, ⟨0, 0⟩, ⟨1, 1⟩, 1, .spot, some ⟨1, 2, .asset ⟨2, 2⟩, 3, 4, 5⟩⟩,
+            ⟨0, 2, 2, ⟨1, 1⟩, ⟨0, 0⟩, 0, .spot, none⟩,
+            ⟨1, 3, 1, ⟨0, 10⟩, ⟨1, 11⟩, 1, .spot, none⟩ ] = some exII := by
+  simp +decide [build, Builder.build, Builder.addInstrument, sortDedup, List.mergeSort,
+    List.MergeSort.Internal.splitInTwo, defAssets, leKey, dedup, Instrument.assetRefs, List.mapIdx,
+    List.mapIdx.go, enumerate, traverse, indexInstrument, Kind.settlementAsset, specUnitAsset,
+    findExchangeByExchangeId, findAssetByExchangeAndNameInternal, Instrument.mapExchangeKey,
+    Instrument.mapAssetKeyWithLookup, Kind.mapOpt, specMapOpt, Units.mapOpt, exII]
+
+/-- one mock for exchange 0 of `exII`, fee 1 %, with the given latency -/
+def exSlow (latency : Nat) : List Add := [.mock ⟨0, latency, 1/100, [(2, 7), (1, 100), (0, 3)]⟩]
+
+/-- (H3) `timeout_hides_an_executed_order_witness` — **ledger debited although the engine saw a
+timeout.** The built system on `exII` with a mock exchange of latency 1000 ms (= the manager's request
+timeout): a funded market buy of 2 @ 10 on instrument 0 comes back as `timeout` under the request's
+own key (0, 0) — and yet the balance notification shows asset index 1 debited (100 → 399/5, fee
+included) and the fill arrives; the same order again is debited from the NEW balance (→ 298/5): the
+exchange executed both. An unfunded order is `timeout` as well (the engine cannot tell the two
+apart). With latency 999 ms the same order is reported `filled`. (Input of the review:
+`corpus/C04M/A2_timeout.ops`.) -/
+theorem timeout_hides_an_executed_order_witness :
+    (∃ b e snaps, addAll exII {} (exSlow 1000) 0 = .ok b ∧ buildInit exII b = .ok e snaps ∧
+      (sendOpenSeen e ⟨0, 0, 0, .buy, .market, 10, 2⟩).2 =
+        .mock 0 1 ⟨some (0, 0, .timeout), some (1, 399/5, 399/5), some (0, .buy, 10, 2, 1/5)⟩ ∧
+      (sendOpenSeen (sendOpenSeen e ⟨0, 0, 0, .buy, .market, 10, 2⟩).1 ⟨0, 0, 0, .buy, .market, 10, 2⟩).2 =
+        .mock 0 1 ⟨some (0, 0, .timeout), some (1, 298/5, 298/5), some (0, .buy, 10, 2, 1/5)⟩ ∧
+      (sendOpenSeen e ⟨0, 0, 0, .sell, .market, 10, 3⟩).2 =
+        .mock 0 1 ⟨some (0, 0, .timeout), none, none⟩) ∧
+    (∃ b e snaps, addAll exII {} (exSlow 999) 0 = .ok b ∧ buildInit exII b = .ok e snaps ∧
+      (sendOpenSeen e ⟨0, 0, 0, .buy, .market, 10, 2⟩).2 =
+        .mock 0 1 ⟨some (0, 0, .response .filled), some (1, 399/5, 399/5), some (0, .buy, 10, 2, 1/5)⟩ ∧
+      (sendOpenSeen e ⟨0, 0, 0, .sell, .market, 10, 3⟩).2 =
+        .mock 0 1 ⟨some (0, 0, .response (.insufficient 0)), none, none⟩) :=
+  ⟨⟨_, _, _, rfl, rfl, by decide +kernel, by decide +kernel, by decide +kernel⟩,
+   ⟨_, _, _, rfl, rfl, by decide +kernel, by decide +kernel⟩⟩
+
+/-- (H4) a dead exchange is heard at once: with latency 1000 ms and NO balance for the quote asset,
+the buy kills the exchange task and is answered `offline` — not `timeout` —, and so is everything
+after it. -/
+theorem dead_exchange_answers_at_once_witness :
+    ∃ b e snaps, addAll exII {} [.mock ⟨0, 1000, 0, [(0, 3)]⟩] 0 = .ok b ∧ buildInit exII b = .ok e snaps ∧
+      (sendOpenSeen e ⟨0, 0, 0, .buy, .market, 10, 2⟩).2 =
+        .mock 0 1 ⟨some (0, 0, .response .offline), none, none⟩ ∧
+      (sendOpenSeen (sendOpenSeen e ⟨0, 0, 0, .buy, .market, 10, 2⟩).1 ⟨0, 0, 0, .sell, .market, 10, 1⟩).2 =
+        .mock 0 1 ⟨some (0, 0, .response .offline), none, none⟩ :=
+  ⟨_, _, _, rfl, rfl, by decide +kernel, by decide +kernel⟩
+
+/-- The definitions of the review's case `nonwf_assets`: two instruments of exchange 0 whose base
+assets share the internal name 0 with different exchange names (5, 6): C11's `WFAssets` fails. -/
+def exNonWF : List Def :=
+  [ ⟨0, 1, 1, ⟨0, 5⟩, ⟨1, 1⟩, 1, .spot, none⟩, ⟨0, 2, 2, ⟨0, 6⟩, ⟨1, 1⟩, 1, .spot, none⟩ ]
+
+/-- (G7) `view_hypotheses_without_wf_assets_witness` — `ViewHypW` is strictly weaker than `ViewHyp`:
+for `exNonWF` no `ViewHyp` exists (`WFAssets` fails), yet `ViewHypW` holds with a balance for each of
+the three asset entries — sections E – H apply to the 12 % of generated cases that violate `WFAssets`. -/
+theorem view_hypotheses_without_wf_assets_witness :
+    ¬ WFAssets exNonWF ∧ (∀ ii c m t, ¬ ViewHyp exNonWF ii c m t) ∧
+    ∃ ii m t, ViewHypW exNonWF ii ⟨0, 0, 0, [(5, 100), (6, 200), (1, 300)]⟩ m t := by
+  refine ⟨by decide, fun ii c m t H => absurd H.wfa (by decide), ?_⟩
+  obtain ⟨ii, h⟩ := C11.build_total exNonWF
+  obtain ⟨t, ht⟩ := (sets_up_iff_all_spot h 0).1.mpr (by decide)
+  have hmem : ∀ a, a ∈ ii.assets.map (·.value) ↔ a ∈ exNonWF.flatMap defAssets := by
+    intro a
+    rw [(C11.unique_assets h).mem_iff]
+    simp [specAssets, mem_specDistinct]
+  have hex : ∃ k ∈ (toColl ii).exchanges, k.id = 0 := by
+    have : (0 : Nat) ∈ ii.exchanges.map (·.value) := by
+      rw [(C11.unique_exchanges h).mem_iff]; decide
+    obtain ⟨x, hx, hx0⟩ := List.mem_map.mp this
+    exact ⟨⟨x.key, x.value⟩, by simp only [toColl, List.mem_map]; exact ⟨x, hx, rfl⟩, hx0⟩
+  obtain ⟨k, hk, hk0⟩ := hex
+  obtain ⟨m, hm⟩ := ExecMap.genMap_of_mem hk
+  rw [hk0] at hm
+  refine ⟨ii, m, t, h, by decide, by decide, hm, ht, by decide, ?_, ?_⟩
+  · intro a ha hae
+    have := (hmem a.value).mp (List.mem_map_of_mem ha)
+    revert hae
+    revert this
+    generalize a.value = v
+    revert v
+    decide
+  · intro n hn
+    have : ∃ v ∈ exNonWF.flatMap defAssets, v.exchange = 0 ∧ v.asset.nameExchange = n := by
       revert hn; revert n; decide
     obtain ⟨v, hv, h1, h2⟩ := this
     obtain ⟨a, ha, rfl⟩ := List.mem_map.mp ((hmem v).mpr hv)
